@@ -364,7 +364,7 @@ func (d *c19DB) runCase(cs c19Case) (problem string, nontrivial bool, desc strin
 // acknowledged rows live in the log only.
 func c19ProcessEnd(rep *lib.Report) {
 	for _, fsync := range []bool{true, false} {
-		for _, nrec := range []int{1, 2, 3, 40, 300} {
+		for _, nrec := range []int{1, 2, 3, 40, 300, 1500} { // (1500 rows: the table's root interior page fills and splits)
 			desc := fmt.Sprintf("import of %d records with log fsync %v, process ends without closing the database, next process reads the table", nrec, fsync)
 			problem := func() (problem string) {
 				defer func() {
@@ -456,7 +456,7 @@ func c19ProcessEnd(rep *lib.Report) {
 			}
 		}
 	}
-	rep.Bounds["process end"] = "imports of 1, 2, 3, 40, 300 records with and without log fsync; the importer exits without closing the database (as main does), the next process recovers and reads the table"
+	rep.Bounds["process end"] = "imports of 1, 2, 3, 40, 300, 1500 records with and without log fsync; the importer exits without closing the database (as main does), the next process recovers and reads the table"
 }
 
 func clipStr(s string, n int) string {
